@@ -24,6 +24,7 @@ class Lang:
         self.methods: Dict[str, Dict[str, ast.FunctionDef]] = {}
         self.classes: Dict[str, List[str]] = {}
         self.notes: List[str] = []
+        self.consts: Dict[str, ast.AST] = {}  # package / module level constants
 
     def func(self, key: str) -> ast.FunctionDef:
         if "." in key:
@@ -49,6 +50,8 @@ class Lang:
             if cls and methods:
                 firsts = {m.args.args[0].arg for m in methods.values() if m.args.args}
                 self_names = tuple(sorted(firsts | set(self_names)))
+        if self.consts:
+            kw.setdefault("consts", self.consts)
         return PyFlow(funcs=self.funcs, methods=methods, classes=self.classes, primitives=primitives, self_names=self_names, **kw)
 
 
@@ -59,9 +62,22 @@ def py_runtime(repo: Repo) -> Lang:
         L = Lang("py", rel)
         L.funcs = module_funcs(tree)
         L.classes = dataclass_fields(tree)
+        seen: Dict[str, int] = {}
         for n in tree.body:
             if isinstance(n, ast.ClassDef):
                 L.methods[n.name] = class_methods(n)
+            tg = None
+            if isinstance(n, ast.Assign) and len(n.targets) == 1 and isinstance(n.targets[0], ast.Name):
+                tg, val = n.targets[0].id, n.value
+            elif isinstance(n, ast.AnnAssign) and isinstance(n.target, ast.Name) and n.value is not None:
+                tg, val = n.target.id, n.value
+            if tg is not None:
+                seen[tg] = seen.get(tg, 0) + 1
+                if isinstance(val, ast.Constant) and isinstance(val.value, (int, str, bool)):
+                    L.consts[tg] = val
+        for k_, c_ in seen.items():
+            if c_ > 1:
+                L.consts.pop(k_, None)
         return L
 
     return repo.memo("flows:py", build)
@@ -84,6 +100,13 @@ def go_runtime(repo: Repo) -> Lang:
             ty = t.type
             if ty is not None and ty.k == "struct":
                 L.classes[name] = [f.name for f in ty.fields if f.get("name")]
+        for d in g.tree.decls:
+            if d.k == "const" and len(d.vals) == len(d.names):
+                for nm, v in zip(d.names, d.vals):
+                    try:
+                        L.consts[nm] = conv.expr(v)
+                    except Exception:
+                        pass
         L.notes = conv.notes
         return L
 
@@ -165,6 +188,12 @@ def compiler_flow(repo: Repo, cls_name: str, rel_hint: Optional[str] = None, inl
                 if isinstance(n, ast.Attribute) and isinstance(n.ctx, ast.Store) and isinstance(n.value, ast.Name) and n.value.id in ("self", "cls"):
                     consts.pop(n.attr, None)
 
+    # the same constants spelled through the class name (Enum members: CaseStyle.SNAKE)
+    for k in m.mro(c):
+        for name in list(k.attrs_val):
+            if name in consts and consts[name] is k.attrs_val[name]:
+                consts.setdefault(f"{k.name}.{name}", consts[name])
+
     def default_inline(name: str, fn: ast.FunctionDef) -> bool:
         return "raise NotImplementedError" not in src_of(fn)
 
@@ -174,4 +203,7 @@ def compiler_flow(repo: Repo, cls_name: str, rel_hint: Optional[str] = None, inl
         return inline(name, fn) if inline is not None else True
 
     kw.setdefault("funcs", funcs if module_funcs else {})
+    from .pymodel import super_targets
+
+    kw.setdefault("super_targets", super_targets(m, c))
     return PyFlow(methods=methods, consts=consts, inline_filter=flt, **kw)
